@@ -193,6 +193,8 @@ theorem search_int32_safe (xs : List Pair) (g : Int) (hlen : xs.length ≤ 10737
   exact ⟨h, by rw [h, hr]; rfl⟩
 
 example : searchI32 (run demo).loc 7 = some 2 := by decide
+example : (run demo).st = .ground ∧ (⟨7, ⟨2, 0, true, true⟩⟩ : Pair) ∈ (specRun demo).cur ∧ (6 : Int) ∉ globals (specRun demo).cur := by
+  decide
 
 example : atL (run demo).loc 5 = some (.ok ⟨5, ⟨1, 3, false, true⟩⟩) := rfl
 example : atL (run demo).loc 4 = some (.error .range) := rfl
@@ -441,13 +443,20 @@ theorem wrong_state_rejected (s : ISet) :
   · intro h; simp [step, endResize, h, lift]
   · intro h; simp [step, renumberLocal, h, lift]
 
-/-- conversely, in the right state the five mutators are accepted -/
+/-- conversely, in the right state all mutators are accepted (both `add` overloads; `markAsDeleted` for every stored entry) -/
 theorem right_state_accepted (s : ISet) :
     (s.st = .ground → (step s .beginResize).2 = .ok ∧ (step s .renumber).2 = .ok) ∧
-    (s.st = .resize → (∀ g l a p, (step s (.add g l a p)).2 = .ok) ∧ (step s .endResize).2 = .ok) := by
-  refine ⟨fun h => ?_, fun h => ?_⟩
+    (s.st = .resize → (∀ g l a p, (step s (.add g l a p)).2 = .ok) ∧ (∀ g, (step s (.addG g)).2 = .ok) ∧
+      (∀ g a, (∃ p ∈ s.loc, p.g = g ∧ p.l.attr = a) → (step s (.markDel g a)).2 = .ok) ∧ (step s .endResize).2 = .ok) := by
+  refine ⟨fun h => ?_, fun h => ⟨?_, ?_, ?_, ?_⟩⟩
   · simp [step, beginResize, renumberLocal, h, lift]
-  · simp [step, add, endResize, h, lift]
+  · simp [step, add, h, lift]
+  · simp [step, add, h, lift]
+  · intro g a ⟨p, hp, hpg⟩
+    cases hf : findKey g a s.loc with
+    | none => exact absurd hpg (findKey_none hf p hp)
+    | some i => simp [step, hf, markAsDeleted, h, lift]
+  · simp [step, endResize, h, lift]
 
 /-- whatever operation reports an error (InvalidIndexSetState or RangeError) leaves the whole state as it was -/
 theorem rejected_op_leaves_state (s : ISet) (op : Op) (e : Err) (h : (step s op).2 = .err e) :
